@@ -107,7 +107,7 @@ Definition p_rr_put := [client_of [RemoveRun 3]; client_of [Put 3 1 9]].
 Lemma removerun_put_race_refuted_p :
   exists sched, let '(g, cs) := run_all true (slots_of g_r1) g_r1 p_rr_put sched in
                 map outs cs = [[Err ESqlIntegrity]; [OkU]] /\ all_readable g = true /\ length (dsets g) = 2%nat.
-Proof. exists [0; 0; 0; 1]%nat. vm_compute. auto. Qed.
+Proof. exists [0; 0; 1]%nat. vm_compute. auto. Qed.
 
 (* ---- get-or-create: three clients registering the same run under EVERY schedule of at most 12 picks: exactly one
         True, the collection exists once.  (Finite: the picks are taken modulo the number of live clients, <= 3.) *)
